@@ -64,27 +64,18 @@ func c11ASCIIText(b byte) bool {
 	return b == 0x09 || b == 0x0A || b == 0x0C || b == 0x0D || b == 0x1B || (0x20 <= b && b <= 0x7E)
 }
 
-// HC11Plain: charset.FromPlain on every byte string without binary-data bytes.
-func HC11Plain() {
-	maxN := vChoice("maxlen", 64)
-	x := vBytes("x", 1, maxN)
-	for _, b := range x {
-		vAssume(!c11Bin(b))
-	}
-	r := FromPlain(x)
+// c11Check compares one FromPlain result with the oracles.
+func c11Check(x []byte, r string, pfx string) {
 	// byte-order marks that can occur without a binary-data byte
 	switch {
 	case len(x) >= 3 && x[0] == 0xEF && x[1] == 0xBB && x[2] == 0xBF:
-		vAssert(r == "utf-8", "bom-utf8")
-		vReach("end")
+		vAssert(r == "utf-8", pfx+"bom-utf8")
 		return
 	case len(x) >= 2 && x[0] == 0xFE && x[1] == 0xFF:
-		vAssert(r == "utf-16be", "bom-utf16be")
-		vReach("end")
+		vAssert(r == "utf-16be", pfx+"bom-utf16be")
 		return
 	case len(x) >= 2 && x[0] == 0xFF && x[1] == 0xFE:
-		vAssert(r == "utf-16le", "bom-utf16le")
-		vReach("end")
+		vAssert(r == "utf-16le", pfx+"bom-utf16le")
 		return
 	}
 	valid, complete := c11ValidCut(x)
@@ -99,17 +90,50 @@ func HC11Plain() {
 		}
 	}
 	if r == "utf-8" {
-		vAssert(valid, "utf8-only-if-valid")
+		vAssert(valid, pfx+"utf8-only-if-valid")
 	}
 	if valid && (allASCII || complete) {
-		vAssert(r == "utf-8", "utf8-always-when-valid")
+		vAssert(r == "utf-8", pfx+"utf8-always-when-valid")
 	}
 	if r == "windows-1252" {
-		vAssert(c1, "cp1252-needs-c1-byte")
+		vAssert(c1, pfx+"cp1252-needs-c1-byte")
 	}
 	if r == "iso-8859-1" {
-		vAssert(!c1, "latin1-excludes-c1-byte")
+		vAssert(!c1, pfx+"latin1-excludes-c1-byte")
 	}
-	vAssert(r == "" || r == "utf-8" || r == "windows-1252" || r == "iso-8859-1", "closed-result-set")
+	vAssert(r == "" || r == "utf-8" || r == "windows-1252" || r == "iso-8859-1", pfx+"closed-result-set")
+}
+
+// HC11Plain: charset.FromPlain on every byte string without binary-data bytes.
+func HC11Plain() {
+	maxN := vChoice("maxlen", 64)
+	x := vBytes("x", 1, maxN)
+	for _, b := range x {
+		vAssume(!c11Bin(b))
+	}
+	r := FromPlain(x)
+	c11Check(x, r, "")
+	vReach("end")
+}
+
+// HC11Seq: the answer for a text does not depend on what was sniffed before it: FromPlain on an
+// arbitrary first text (whatever it leaves behind in caches or pooled state), then FromPlain on a
+// second arbitrary text, whose result must satisfy the same oracles. The second text is also
+// sniffed a second time (repeating a detection never changes the answer).
+func HC11Seq() {
+	maxN := vChoice("maxlen", 64)
+	x1 := vBytes("x1", 1, maxN)
+	x2 := vBytes("x2", 1, maxN)
+	for _, b := range x1 {
+		vAssume(!c11Bin(b))
+	}
+	for _, b := range x2 {
+		vAssume(!c11Bin(b))
+	}
+	_ = FromPlain(x1)
+	r := FromPlain(x2)
+	c11Check(x2, r, "seq-")
+	r2 := FromPlain(x2)
+	vAssert(r2 == r, "seq-repeat-same-answer")
 	vReach("end")
 }
